@@ -148,7 +148,13 @@ End SortVoting.
 (* entry points for the correspondence check *)
 Definition mk (f t : N) (e : option Q) : dist := {| d_from := f; d_to := t; d_attr := None; d_feat := e |}.
 
+(* rationals are printed as (numerator, denominator) *)
+Definition qp (q : Q) : Z * Z := (Qnum q, Zpos (Qden q)).
+Definition out_map (r : list (N * list (N * Q))) : list (N * list (N * (Z * Z))) :=
+  map (fun g => (fst g, map (fun e => (fst e, qp (snd e))) (snd g))) r.
+Definition out_cands (l : list cand) : list (N * N * (Z * Z)) := map (fun c => (c_q c, c_t c, qp (c_w c))) l.
+
 Definition run_topn (n : nat) (maxd : Q) (minv : nat) (s : list dist) :=
-  (topn_voting n maxd minv s, topn_tie maxd minv s, cands maxd minv s).
+  (out_map (topn_voting n maxd minv s), topn_tie maxd minv s, out_cands (cands maxd minv s)).
 Definition run_bestfit (maxd : Q) (minv : nat) (s : list dist) :=
-  (best_fit_voting maxd minv s, bestfit_tie maxd minv s, cands maxd minv s).
+  (out_map (best_fit_voting maxd minv s), bestfit_tie maxd minv s, out_cands (cands maxd minv s)).
